@@ -35,13 +35,17 @@ def pyints(w, rng):
 
 
 class Gen:
-    def __init__(self, rng, nvars=3, allow_div=True, widths=None, surface=True, wide=False):
+    def __init__(self, rng, nvars=3, allow_div=True, widths=None, surface=True, wide=False, closed=False, nbools=None):
         self.rng = rng
         self.nvars = nvars
         self.allow_div = allow_div
         self.widths = widths or [1, 2, 3, 4, 5, 8, 16, 32, 64]
         self.surface = surface
         self.wide = wide
+        # closed: only variables of width widths[0] (and nbools Bool variables) ever occur; other widths are
+        # produced from them by extract/concat, so the variable universe stays fixed (solver histories)
+        self.closed = closed
+        self.nbools = min(3, nvars) if nbools is None else nbools
 
     def const(self, w):
         r = self.rng
@@ -50,10 +54,21 @@ class Gen:
         return ["bvv", r.getrandbits(w), w]
 
     def var(self, w):
+        if self.closed and w != self.widths[0]:
+            b = self.widths[0]
+            if w < b:
+                lo = self.rng.randrange(0, b - w + 1)
+                return ["extract", lo + w - 1, lo, self.var(b)]
+            parts = [self.var(b) for _ in range((w + b - 1) // b)]
+            wide = ["concat", *parts] if len(parts) > 1 else parts[0]
+            return wide if len(parts) * b == w else ["extract", w - 1, 0, wide]
         return bvs("abcd"[self.rng.randrange(self.nvars)], w)
 
     def boolvar(self):
-        return ["bools", "pqr"[self.rng.randrange(min(3, self.nvars))]]
+        if self.closed and self.nbools == 0:
+            w = self.widths[0]
+            return [self.rng.choice(CMP_ALL), self.var(w), self.const(w)]
+        return ["bools", "pqr"[self.rng.randrange(self.nbools if self.closed else min(3, self.nvars))]]
 
     def leaf(self, w):
         return self.var(w) if self.rng.random() < 0.6 else self.const(w)
